@@ -455,6 +455,32 @@ func c20(c *core.Ctx) {
 					}
 				}
 				c.Check(chans == 2, typeKey(nt)+":channels", nt.Obj().Pos(), "exactly the two per-direction channels", fmt.Sprintf("stream type has %d channel fields, expected the two per-direction ones", chans))
+				// single-frame slots: the client's peek slot (one frame set aside by the header accessor / an error
+				// frame re-parked) is the only one; a slot on the server side, or a second one, lets a sender get one
+				// more message ahead
+				slots := 0
+				var slotPos token.Pos
+				slotName := ""
+				for i := 0; i < st.NumFields(); i++ {
+					f := st.Field(i)
+					t := f.Type()
+					if pt, isP := t.Underlying().(*types.Pointer); isP {
+						t = pt.Elem()
+					}
+					if core.NamedOf(t) == "frame" {
+						slots++
+						slotPos, slotName = f.Pos(), f.Name()
+					}
+				}
+				want := 0
+				if iface == "ClientStream" {
+					want = 1
+				}
+				if slots > want {
+					c.Fail(typeKey(nt)+"."+slotName+":frame-slot", slotPos, "the stream type has %d field(s) that hold a frame (allowed here: %d — only the client stream's peek slot): a frame taken off the channel and kept there is one more buffered message, so the sender completes one more send than the constant the property allows", slots, want)
+				} else {
+					c.Ok(typeKey(nt)+":frame-slots", nt.Obj().Pos(), "%d frame-holding field(s) (allowed: %d)", slots, want)
+				}
 			}
 		}
 		c.EndRule()
@@ -641,6 +667,23 @@ func c20(c *core.Ctx) {
 	if c.Rule("R6", "the receiver does not read ahead of the application: in the receive path of the in-process client stream a frame taken from the channel is parked in the peek slot only if it cannot be a data frame (error frames are re-parked so that later calls see them); every frame receive there is blocking; the header accessor leaves its receiving state whenever it sets a frame aside", 2) {
 		kinds := frameKinds(p)
 		n := 0
+		// the server side polls nothing either
+		for _, nt := range streamTypes(p, "ServerStream", "RecvMsg") {
+			if pkgSuffixOf(nt) != "inprocgrpc" {
+				continue
+			}
+			for _, fn := range methodFamily(p, nt, "RecvMsg") {
+				core.Instrs(fn, func(in ssa.Instruction) {
+					if x, ok := in.(*ssa.Select); ok {
+						for _, st := range x.States {
+							if st.Dir == types.RecvOnly && isFrameChan(st.Chan.Type()) && !x.Blocking {
+								c.Fail(core.FuncName(fn)+":non-blocking-frame-receive", x.Pos(), "the server's receive path polls the request channel without blocking: it takes a request the handler has not asked for yet (an extra buffer slot: the client gets one more message ahead)")
+							}
+						}
+					}
+				})
+			}
+		}
 		for _, nt := range streamTypes(p, "ClientStream", "RecvMsg") {
 			if pkgSuffixOf(nt) != "inprocgrpc" {
 				continue
@@ -764,7 +807,7 @@ func c20(c *core.Ctx) {
 	}
 
 	// ---------------------------------------------------------------- R3
-	if c.Rule("R3", "pending header frames do not add a slot: the header frame is written to the same channel field under the same lock as the data frame", 1) {
+	if c.Rule("R3", "pending header frames do not add a slot: the header frame is written to the same channel field under the same lock as the data frame, and every frame built has exactly one kind", 5) {
 		for _, nt := range streamTypes(p, "ServerStream", "RecvMsg") {
 			if pkgSuffixOf(nt) != "inprocgrpc" {
 				continue
@@ -780,6 +823,47 @@ func c20(c *core.Ctx) {
 				}
 			}
 			c.Check(len(fields) == 1, typeKey(nt)+":one-channel", nt.Obj().Pos(), fmt.Sprintf("all frames of the send path go through %v", keysOf(fields)), fmt.Sprintf("frames of the send path use %d different channels %v", len(fields), keysOf(fields)))
+		}
+		// one frame, one kind: no frame is built with two of {headers, data, trailers, err} set — a frame that
+		// carries a message next to its headers makes whoever takes the headers take a message out of the channel
+		// with them (an extra slot), and the receiver's kind() dispatch sees one of the two
+		kinds := frameKinds(p)
+		nFrames := 0
+		for _, fn := range p.LibFuncs("inprocgrpc") {
+			core.Instrs(fn, func(in ssa.Instruction) {
+				al, ok := in.(*ssa.Alloc)
+				if !ok {
+					return
+				}
+				pt, isP := al.Type().Underlying().(*types.Pointer)
+				if !isP || core.NamedOf(pt.Elem()) != "frame" {
+					return
+				}
+				set := map[string]bool{}
+				for _, r := range core.Refs(al) {
+					fa, isFA := r.(*ssa.FieldAddr)
+					if !isFA {
+						continue
+					}
+					_, fld, _ := core.FieldOf(fa)
+					if _, isKind := kinds[fld]; !isKind {
+						continue
+					}
+					for _, rr := range core.Refs(fa) {
+						if st, isS := rr.(*ssa.Store); isS && !core.IsNilConst(st.Val) {
+							set[fld] = true
+						}
+					}
+				}
+				if len(set) == 0 {
+					return
+				}
+				nFrames++
+				c.Check(len(set) == 1, core.FuncName(fn)+":frame{"+strings.Join(keysOf(set), ",")+"}:one-kind", al.Pos(), "the frame built here has one kind", fmt.Sprintf("a frame is built with %d kinds set %v: the protocol (and every consumer's kind() dispatch, the peek slot, the backpressure count) assumes one kind per frame", len(set), keysOf(set)))
+			})
+		}
+		if nFrames < 4 {
+			c.Fail("inprocgrpc:frame-literals", token.NoPos, "ANCHOR-MISSING: expected >= 4 places that build a frame, found %d", nFrames)
 		}
 		c.EndRule()
 	}
